@@ -163,9 +163,14 @@ impl Gen {
   // ---- plumbing -----------------------------------------------------------------------------
 
   /// Executes `line`, records the line and its observation, updates the statistics.
+  /// Once the budget of the case (`left`) is used up nothing more is emitted, so a multi-line
+  /// sequence may be cut short; every prefix of the sequences below is safe to execute.
   fn emit(&mut self, line: String) -> String {
-    watchdog_begin(&self.cfg_line, &line);
     let is_cfg = line.starts_with("cfg ");
+    if !is_cfg && self.left == 0 {
+      return String::new();
+    }
+    watchdog_begin(&self.cfg_line, &line);
     let ans = if is_cfg {
       self.case = None;
       let (c, ans) = open_case(&line, None, self.tmp.path(), self.st.cases);
